@@ -31,6 +31,9 @@ class Quiet:
     def count(self, key, n=1):
         pass
 
+    def should_shrink(self, *a):
+        return False
+
     def sample(self, c):
         pass
 
@@ -41,12 +44,57 @@ class Quiet:
         self.v.append(mech)
 
 
-def run_case(ctx, nc, spec, si, dname, uname, vname, rname, cache, want, _shrinking=False):
+def apply_mutations(g, muts):
+    """Size-preserving in-place edits between two traversals of the SAME objects (stale-memo hunting)."""
+    for m in muts:
+        if m[0] == "uni_swap" and g.uni is not None:
+            out_v, in_v = g.verts[m[1]], g.verts[m[2]]
+            if any(x is out_v for x in g.uni.vertices) and not any(x is in_v for x in g.uni.vertices):
+                g.uni.remove_vertex(out_v)
+                g.uni.add_vertex(in_v)
+        elif m[0] == "repoint" and m[1] < len(g.edges):
+            e = g.edges[m[1]]
+            if len(e.vertices) == 2:
+                e.v2 = g.verts[m[2]]
+        elif m[0] == "relink":
+            # remove a link and create an equal one: the number of links stays the same
+            if m[1] < len(g.edges):
+                e = g.edges[m[1]]
+                ends = e.vertices
+                if len(ends) == 2 and ends[0] is not None and ends[1] is not None:
+                    a, b = ends
+                    a.remove_from_link(e)
+                    b.remove_from_link(e)
+                    g.edges[m[1]] = type(e)(b, a, attributes={"tag": getattr(e, "tag", 0), "eidx": m[1]})
+
+
+def mutated_spec(spec, muts):
+    """The spec describing the graph after `muts` (for the oracle's bookkeeping only: sizes and features)."""
+    return dict(spec, then=muts)
+
+
+def run_case(ctx, nc, spec, si, dname, uname, vname, rname, cache, want, _shrinking=False, then=None):
     """
     Execute one traversal case on the real code and judge it.
     want: subset of {"C06", "C07"}.  Returns list of mechanism tags found.
     """
+    if vname == "reentrant" and len(spec["verts"]) > 12:
+        vname = "accept"  # the re-entrant filter runs a nested traversal per edge: small graphs only
     g = graphs.build(spec)
+    if then:
+        # first traverse the fresh graph with all three traversals (this is what may leave a stale memo behind),
+        # then edit the same objects in place; everything below judges the EDITED graph
+        Vertex.NEIGHBOR_CACHING = bool(cache)
+        try:
+            for _n, (lf, _gf) in TRAV.items():
+                oracles.outcome(lf, g.uni, g.verts[si], direction_sensitive=DIRS[dname], unknown_handling=UNKS[uname],
+                                ff_via=zoo.NB_FILTERS[vname])
+            apply_mutations(g, then)
+        finally:
+            Vertex.NEIGHBOR_CACHING = False
+        ctx.count("cases_retraversed_after_in_place_edit")
+        if g.uni is not None and not any(x is g.verts[si] for x in g.uni.vertices):
+            return []
     start = g.verts[si]
     uni = g.uni
     d, u = DIRS[dname], UNKS[uname]
@@ -54,7 +102,8 @@ def run_case(ctx, nc, spec, si, dname, uname, vname, rname, cache, want, _shrink
     res = zoo.RES_FILTERS[rname]
     inuni = oracles.member_test(uni)
     found = []
-    case = {"spec": spec, "start": si, "dir": dname, "unk": uname, "via": vname, "res": rname, "cache": bool(cache)}
+    case = {"spec": spec, "start": si, "dir": dname, "unk": uname, "via": vname, "res": rname, "cache": bool(cache),
+            "then": then}
 
     def viol(mech, what):
         found.append(mech)
@@ -137,6 +186,39 @@ def run_case(ctx, nc, spec, si, dname, uname, vname, rname, cache, want, _shrink
                     if rout[0] != "ok" or not oracles.same_identities(rout[1], expect):
                         viol(f"{name}:ff_result", f"with ff_result={rname}: {_nm(g, rout)}; unfiltered {g.names(lst)} "
                              f"minus rejected = {g.names(expect)}")
+        if "C06" in want and len(results) == 3 and not expect_ni:
+            kw = dict(direction_sensitive=d, unknown_handling=u, ff_via=via)
+            for n1, n2 in (("dft_recursive", "dft_recursive"), ("bft", "dft_iterative"), ("dft_recursive", "bft")):
+                other = g.verts[(si + 1) % len(g.verts)]
+                if uni is not None and not inuni(other):
+                    other = start
+                g1, g2 = TRAV[n1][1](uni, start, **kw), TRAV[n2][1](uni, other, **kw)
+                o1, o2 = [], []
+                try:
+                    alive = [True, True]
+                    while any(alive):
+                        for k_, (gen_, out_) in enumerate(((g1, o1), (g2, o2))):
+                            if alive[k_]:
+                                try:
+                                    out_.append(next(gen_))
+                                except StopIteration:
+                                    alive[k_] = False
+                                except NotImplementedError:
+                                    if k_ == 0:
+                                        raise
+                                    # the companion traversal starts elsewhere and may legitimately meet an
+                                    # unknown-type link under LNK_UNKNOWN_ERROR: it just ends there
+                                    alive[k_] = False
+                except Exception as exc:  # noqa: BLE001
+                    viol(f"{n1}:interleaved_generators_raised:{type(exc).__name__}", f"two generator traversals consumed "
+                         f"alternately raised {type(exc).__name__}")
+                    break
+                ctx.evaluated()
+                ctx.count("interleaved_generator_pairs")
+                if not oracles.same_identities(o1, results[n1]):
+                    viol(f"{n1}:interleaved_generator_differs", f"{n1} generator consumed alternately with a {n2} generator "
+                         f"yields {g.names(o1)}; alone it yields {g.names(results[n1])}")
+                    break
         if "C06" in want and len(results) == 3:
             sets = [sorted(id(x) for x in results[n]) for n in TRAV]
             if not (sets[0] == sets[1] == sets[2]):
@@ -178,6 +260,8 @@ def run_case(ctx, nc, spec, si, dname, uname, vname, rname, cache, want, _shrink
                     viol(f"{name}:not_repeatable", f"second call gave {_nm(g, again)}, first {g.names(results[name])}")
             if not _shrinking:
                 g2 = graphs.build(spec)
+                if then:
+                    apply_mutations(g2, then)
                 for name, (lf, _) in TRAV.items():
                     if name not in results:
                         continue
@@ -203,12 +287,13 @@ def run_case(ctx, nc, spec, si, dname, uname, vname, rname, cache, want, _shrink
 
         def fails(edges):
             q = Quiet()
-            run_case(q, nc, dict(spec, edges=edges), si, dname, uname, vname, rname, cache, want, _shrinking=True)
+            run_case(q, nc, dict(spec, edges=edges), si, dname, uname, vname, rname, cache, want, _shrinking=True, then=then)
             return first in q.v
 
-        small = ddmin(list(spec["edges"]), fails)
-        if len(small) < len(spec["edges"]) and fails(small):
-            run_case(ctx, nc, dict(spec, edges=small), si, dname, uname, vname, rname, cache, want, _shrinking=True)
+        if not then:
+            small = ddmin(list(spec["edges"]), fails)
+            if len(small) < len(spec["edges"]) and fails(small):
+                run_case(ctx, nc, dict(spec, edges=small), si, dname, uname, vname, rname, cache, want, _shrinking=True)
     return found
 
 
